@@ -1,14 +1,16 @@
 #!/bin/bash
 # Re-evaluate every kept seeded change against the current /repo HEAD (scratch worktrees; /repo untouched).
-# usage: tools/seeded_sweep.sh [jobs]   -> prints one line per seeded change, updates seeded/*/meta.json
-jobs=${1:-3}
+# Properties run in parallel, the changes of one property sequentially (they share evidence/<id>.json).
+# usage: tools/seeded_sweep.sh [jobs]
+jobs=${1:-4}
 cd /verif
-ls -d seeded/C??-* | xargs -P $jobs -I{} bash -c '
-  d={}; id=$(basename $d); pid=${id%%-*}
-  timeout 3000 python3 tools/try_mutant.py $pid $d --keep $id 2>&1 | grep -v WARN | python3 -c "
+ls -d seeded/C??-* | sed 's/-[0-9]*$//' | sort -u | xargs -P $jobs -I{} bash -c '
+  for d in {}-*; do id=$(basename $d); pid=${id%%-*}
+    timeout 3000 python3 tools/try_mutant.py $pid $d --keep $id 2>&1 | grep -v WARN | python3 -c "
 import json,sys
 try:
     d=json.load(sys.stdin)
     print(\"$id\", \"valid=%s detected=%s failing_input=%s apply=%s\" % (d.get(\"valid_mutant\"), d.get(\"detected\"), d.get(\"detected_with_failing_input\"), d.get(\"apply_rc\")))
 except Exception as e:
-    print(\"$id\", \"ERROR\", e)"'
+    print(\"$id\", \"ERROR\", e)"
+  done'
